@@ -403,6 +403,168 @@ theorem looseSpec_mem (c : Cls) (segs : List Seg) (l : List SecBuf) (i : Nat) (p
 
 end Small
 
+namespace Small
+
+/-! ### the memory-size counter when every member is fresh at its step -/
+
+theorem wsdStep_mem_small (g : Seg) (segStart : BitVec 64) (st : WsdSt) (idx : BitVec 16)
+    (B : Nat) (G : List Seg) (hg : g ∈ G) (hidx : idx ∈ g.secs)
+    (hinv : SmallInv B G st.lay) (hfr : wsdStepFresh st idx = true)
+    (M : Nat) (hm : st.mem.toNat ≤ M) (hM : M + 2199023255552 < 18446744073709551616) :
+    ∀ st', wsdStep .c64 g segStart st idx = .ok (some st') → st'.mem.toNat ≤ M + 2199023255552 := by
+  intro st' h
+  rw [wsdStep_eq] at h
+  unfold wsdStepFresh at hfr
+  cases hsec : st.lay.secs[idx.toNat]? with
+  | none => rw [hsec] at h; simp [throw, throwThe, MonadExceptOf.throw] at h
+  | some sec =>
+  cases hgen : st.lay.gen[idx.toNat]? with
+  | none => rw [hgen] at hfr; simp at hfr
+  | some generated =>
+  rw [hgen] at hfr
+  have hgf : generated = false := by simpa using hfr
+  subst hgf
+  rw [hsec, hgen] at h
+  simp only at h
+  by_cases hnull : wsd_is_null sec.stype = true
+  · simp only [hnull, if_true, pure, Except.pure, Except.ok.injEq, Option.some.injEq] at h
+    subst h; simp only; omega
+  · have hnull' : wsd_is_null sec.stype = false := by simpa using hnull
+    simp only [hnull', Bool.false_eq_true, if_false] at h
+    cases hgap : wsdGap g segStart st.lay.pos st.file sec false with
+    | none => rw [hgap] at h; simp [pure, Except.pure] at h
+    | some gap =>
+      rw [hgap] at h
+      simp only [Bool.false_eq_true, if_false, pure, Except.pure, Except.ok.injEq, Option.some.injEq] at h
+      subst h
+      simp only
+      obtain ⟨hsz, hal⟩ := hinv.sz _ sec hsec
+      have hgs := wsdGap_small g segStart st.lay.pos st.file sec gap hgap hal
+        (hinv.addr g hg idx hidx sec hsec hgen)
+      split
+      · rw [wsd_mem_add_toNat _ _ _ (by omega)]; omega
+      · omega
+
+theorem wsdLoop_mem_small (g : Seg) (segStart : BitVec 64) (l : List (BitVec 16)) (st : WsdSt)
+    (B : Nat) (G : List Seg) (hg : g ∈ G) (hl : ∀ idx ∈ l, idx ∈ g.secs)
+    (hB : B ≤ 4611686018427387904) (hinv : SmallInv B G st.lay)
+    (hfr : wsdLoopAll (fun st idx => wsdStepFresh st idx) .c64 g segStart l st = true)
+    (M : Nat) (hm : st.mem.toNat ≤ M) (hM : M + 2199023255552 * l.length < 18446744073709551616) :
+    ∀ st', wsdLoop .c64 g segStart l st = .ok (some st') → st'.mem.toNat ≤ M + 2199023255552 * l.length := by
+  induction l generalizing st M with
+  | nil =>
+    intro st' h
+    simp only [wsdLoop, pure, Except.pure, Except.ok.injEq, Option.some.injEq] at h
+    subst h; omega
+  | cons idx rest ih =>
+    intro st' h
+    simp only [List.length_cons, Nat.mul_add_one, ← Nat.add_assoc] at hM ⊢
+    have hi := hl idx (List.mem_cons_self ..)
+    have hrest : ∀ j ∈ rest, j ∈ g.secs := fun j hj => hl j (List.mem_cons_of_mem _ hj)
+    unfold wsdLoop at h
+    unfold wsdLoopAll at hfr
+    cases hs : wsdStep .c64 g segStart st idx with
+    | error e => rw [hs] at h; simp [bind, Except.bind] at h
+    | ok r =>
+      rw [hs] at h hfr
+      cases r with
+      | none => simp [bind, Except.bind, pure, Except.pure] at h
+      | some st1 =>
+        simp only [bind, Except.bind, Bool.and_eq_true] at h hfr
+        have hm1 := wsdStep_mem_small g segStart st idx B G hg hi hinv hfr.1 M hm (by omega) st1 hs
+        have hinv1 := (wsdStepNW_of_bound .c64 g segStart st idx B G rfl hg hi hB hinv).2 st1 hs
+        have := ih st1 hrest hinv1 hfr.2 (M + 2199023255552) hm1 (by omega) st' h
+        omega
+
+/-- the initial `segment_memory` is the PHDR table size, the cursor, or 0 -/
+theorem segInit_mem (c : Cls) (hdrPhoff : BitVec 64) (phentsize phnum : BitVec 16) (lay : Layout) (g : Seg)
+    (fg : Bool) (r : Layout × BitVec 64 × BitVec 64 × BitVec 64)
+    (h : segInit c hdrPhoff phentsize phnum lay g fg = .ok r) :
+    r.2.2.1.toNat ≤ lay.pos.toNat + 4294967296 := by
+  have hph : (lseg_phdr_size phentsize phnum).toNat ≤ lay.pos.toNat + 4294967296 := by
+    have hb := phentsize.isLt; have hc := phnum.isLt
+    have hm : phentsize.toNat * phnum.toNat < 65536 * 65536 := Nat.mul_lt_mul'' hb hc
+    simp only [Nat.reduceMul] at hm
+    simp only [lseg_phdr_size, BitVec.toNat_mul, BitVec.toNat_setWidth, Nat.reducePow]
+    rw [Nat.mod_eq_of_lt (show phentsize.toNat < 18446744073709551616 by omega),
+        Nat.mod_eq_of_lt (show phnum.toNat < 18446744073709551616 by omega),
+        Nat.mod_eq_of_lt (show phentsize.toNat * phnum.toNat < 18446744073709551616 by omega)]
+    omega
+  unfold segInit at h
+  simp only at h
+  repeat' split at h
+  all_goals first
+    | (simp only [pure, Except.pure, Except.ok.injEq] at h; subst h
+       first
+         | exact hph
+         | (simp only; split <;> simp)
+         | simp)
+    | (simp [throw, throwThe, MonadExceptOf.throw] at h)
+
+/-- one flat segment: the final `p_memsz` stays below `2^63` -/
+theorem layoutSegment_mem_small (hdrPhoff : BitVec 64) (phentsize phnum : BitVec 16) (lay : Layout) (g : Seg)
+    (B : Nat) (G : List Seg) (hg : g ∈ G) (hal : g.align.toNat < 1099511627776)
+    (hB : B + 1099511627776 ≤ 4611686018427387904) (hinv : SmallInv B G lay)
+    (hlen : g.secs.length < 65536)
+    (hfl : segFlat .c64 hdrPhoff phentsize phnum lay g = true)
+    (hms : g.memsz.toNat < 4611686018427387904) :
+    ∀ lay' g', layoutSegment .c64 hdrPhoff phentsize phnum lay g = .ok (some (lay', g')) →
+      g'.vaddr = g.vaddr ∧ g'.memsz.toNat < 9223372036854775808 := by
+  intro lay' g' h
+  obtain ⟨fg, r, st, hfg, hin, hloop, -, rfl⟩ := layoutSegment_parts .c64 hdrPhoff phentsize phnum lay lay' g g' h
+  unfold segFlat at hfl
+  rw [hfg] at hfl
+  simp only at hfl
+  rw [hin] at hfl
+  simp only at hfl
+  have hpot := hinv.pot
+  obtain ⟨hp1, hp2⟩ := segInit_pos .c64 hdrPhoff phentsize phnum lay g fg r hin hal (by omega)
+  have hl := segInit_lay .c64 hdrPhoff phentsize phnum lay g fg r hin
+  have hinv1 : SmallInv (B + 1099511627776) G r.1 := by
+    rw [hl]
+    exact ⟨by simp only; omega, hinv.len, hinv.sz, hinv.addr⟩
+  have hm0 := segInit_mem .c64 hdrPhoff phentsize phnum lay g fg r hin
+  have hmem := wsdLoop_mem_small g r.2.1 g.secs { lay := r.1, mem := r.2.2.1, file := r.2.2.2 }
+    (B + 1099511627776) G hg (fun _ h => h) hB hinv1 hfl 4611686022722355200 (by simp only; omega)
+    (by omega) st hloop
+  obtain ⟨-, -, f3, f4, -⟩ := segFinish_fields .c64 g r.2.1 st
+  refine ⟨f4, ?_⟩
+  rw [f3]
+  split
+  · simp only [truncA]; omega
+  · omega
+
+/-- `SmallInv` at every turn of pass 2 -/
+theorem segsTrace_small (c : Cls) (hdrPhoff : BitVec 64) (phentsize phnum : BitVec 16) (l : List Seg)
+    (lay : Layout) (B : Nat) (G : List Seg) (hc : c = .c64)
+    (hl : ∀ g ∈ l, g ∈ G ∧ g.align.toNat < 1099511627776)
+    (hB : B + 1099511627776 * l.length ≤ 4611686018427387904) (hinv : SmallInv B G lay) :
+    ∀ t ∈ segsTrace c hdrPhoff phentsize phnum l lay, SmallInv (B + 1099511627776 * l.length) G t.lay := by
+  induction l generalizing lay B with
+  | nil => intro t ht; simp [segsTrace] at ht
+  | cons g rest ih =>
+    simp only [List.length_cons, Nat.mul_add_one, ← Nat.add_assoc] at hB ⊢
+    obtain ⟨hgG, hga⟩ := hl g (List.mem_cons_self ..)
+    have hrest : ∀ g' ∈ rest, g' ∈ G ∧ g'.align.toNat < 1099511627776 :=
+      fun g' h' => hl g' (List.mem_cons_of_mem _ h')
+    intro t ht
+    unfold segsTrace at ht
+    cases hs : layoutSegment c hdrPhoff phentsize phnum lay g with
+    | error e => rw [hs] at ht; simp at ht
+    | ok r =>
+      rw [hs] at ht
+      cases r with
+      | none => simp at ht
+      | some r =>
+        obtain ⟨lay1, g1⟩ := r
+        simp only [List.mem_cons] at ht
+        rcases ht with rfl | ht
+        · exact hinv.mono (by omega)
+        · have hinv1 := (segNW_of_bound c hdrPhoff phentsize phnum lay g B G hc hgG hga (by omega) hinv).2 lay1 g1 hs
+          exact (ih lay1 (B + 1099511627776) hrest (by omega) hinv1 t ht).mono (by omega)
+
+end Small
+
 /-- input bounds on addresses and offsets (beyond `SmallObject`): addresses and offsets below `2^62`;
     a section with index 0 or of type SHT_NULL (never given an offset by the writer) has offset 0;
     segment `vaddr` below `2^62`, fewer than `2^16` members -/
